@@ -44,8 +44,18 @@ func c19Doc(i int) refdb.Doc {
 	return refdb.Doc{
 		ID:   refdb.ID{MID: uint64(vfrac.BaseMID + i%3), RID: uint64(10 + i)},
 		Body: fmt.Sprintf(`{"i":%d}`, i),
-		Toks: vfrac.WithExists([]refdb.Tok{{F: "k", V: []string{"a", "ab", "b"}[i%3]}, {F: "g", V: fmt.Sprintf("g%d", i%2)}, {F: "v", V: fmt.Sprint(i + 1)}}),
+		Toks: vfrac.WithExists(c19Toks(i)),
 	}
+}
+
+// every document has the text word m:x, all but every fourth also m:y (the query m:"x y" means
+// m:x AND m:y only when it is parsed with the mapping: its parse depends on the field type)
+func c19Toks(i int) []refdb.Tok {
+	toks := []refdb.Tok{{F: "k", V: []string{"a", "ab", "b"}[i%3]}, {F: "g", V: fmt.Sprintf("g%d", i%2)}, {F: "v", V: fmt.Sprint(i + 1)}, {F: "m", V: "x"}}
+	if i%4 != 3 {
+		toks = append(toks, refdb.Tok{F: "m", V: "y"})
+	}
+	return toks
 }
 
 // a corpus = list of fractions, each a list of doc indexes; the last one stays active unless SealLast
@@ -370,7 +380,7 @@ func TestVerifC19(t *testing.T) {
 	if r.Thorough() {
 		corpora = append(corpora, c19Corpus{Fracs: [][]int{{0, 1, 2, 3}}, SealLast: true}, c19Corpus{Fracs: [][]int{{5}, {4}, {3}}}, c19Corpus{Fracs: [][]int{{0, 2}, {1, 3}}, SealLast: true})
 	}
-	queries := []string{"*", `k:"a*"`, `(not k:"b")`}
+	queries := []string{"*", `k:"a*"`, `(not k:"b")`, `m:"x y"`}
 	var reqs []c19Req
 	for _, q := range queries {
 		for _, asc := range []bool{false, true} {
